@@ -9,7 +9,7 @@ from .. import gen, monitors
 PID = "C07"
 ANCHORS = ["scores.py:Scores.auc"]
 RAISES_ARE_VIOLATIONS = True
-DECIDING = {"M-auc": 6000, "R-auc": 2000}
+DECIDING = {"M-auc": 11636, "R-auc": 1725}
 THOROUGH_EXTRA = ["W2"]
 RULE = (
     "Every Scores.auc call is observed by M-auc. Full range: exact Fraction count (wins + ties/2)/(P*N), easy samples ranked beyond "
